@@ -26,6 +26,8 @@ func (e *SpecExpr) String() string {
 	switch e.Kind {
 	case "ident":
 		return e.Name
+	case "type":
+		return e.Val
 	case "int", "bool":
 		return e.Val
 	case "str":
@@ -390,6 +392,32 @@ func (sp *specParser) postfix() *SpecExpr {
 		case sp.isOp("("):
 			sp.p++
 			args := []*SpecExpr{e}
+			if e.Kind == "ident" && (e.Name == "tagof" || e.Name == "unbox" || e.Name == "maps" || e.Name == "zero") {
+				// first argument is a Go type
+				var ty []string
+				depth := 0
+				for {
+					q := sp.peek()
+					if q.k == "eof" {
+						sp.fail("unterminated type argument")
+					}
+					if depth == 0 && q.k == "op" && (q.s == "," || q.s == ")") {
+						break
+					}
+					if q.k == "op" && (q.s == "[" || q.s == "(") {
+						depth++
+					}
+					if q.k == "op" && (q.s == "]" || q.s == ")") {
+						depth--
+					}
+					ty = append(ty, q.s)
+					sp.p++
+				}
+				args = append(args, &SpecExpr{Kind: "type", Val: strings.Join(ty, "")})
+				if sp.isOp(",") {
+					sp.p++
+				}
+			}
 			for !sp.isOp(")") {
 				args = append(args, sp.expr())
 				if sp.isOp(",") {
